@@ -138,7 +138,10 @@ const portable = "ABCDEFGHIJKLMNOPQRSTUVWXYZabcdefghijklmnopqrstuvwxyz0123456789
 
 // PortableName returns a name made of POSIX portable characters, unique case-insensitively within used.
 func PortableName(r *rand.Rand, used map[string]bool, maxLen int) string {
-	for {
+	for tries := 0; ; tries++ {
+		if tries > 0 && tries%40 == 0 {
+			maxLen++ // the name space of this length is (nearly) used up
+		}
 		l := 1 + r.Intn(maxLen)
 		b := make([]byte, l)
 		for i := range b {
